@@ -923,4 +923,41 @@ theorem anti_crossing_loops_matches_generated_tables : acLoopsTables.all acLoops
 example : Generated.GenTables.combTables.length = 60 ∧ Generated.GenTables.multTables.length = 8
     ∧ Generated.GenTables.acCliqueTables.length = 4 ∧ Generated.GenTables.acLoopsTables.length = 4 := by decide +kernel
 
+/-! ## MIMO / CoMP without noise: the transmitted symbols are a ground state of energy 0 -/
+
+theorem bpskSymbols_length (nt : Nat) (d : List Nat) : (bpskSymbols nt d).length = nt := by
+  unfold bpskSymbols; simp
+
+/-- BPSK has the single amplitude 1: with index draws inside `amps` (all 0) every transmitted symbol is `+1` -/
+theorem bpsk_symbols_are_one (nt : Nat) (d : List Nat) (hd : ∀ i, i < nt → d.getD i 0 = 0) (i : Nat) (hi : i < nt) :
+    (bpskSymbols nt d).getD i 0 = 1 := by
+  unfold bpskSymbols
+  rw [List.getD_eq_getElem?_getD, List.getElem?_map, List.getElem?_range hi]
+  simp only [Option.map_some, Option.getD_some, hd i hi, bpskAmps, List.getD_cons_zero]
+
+/-- `mimo('BPSK', num_transmitters, num_receivers, F_distribution=('binary', 'real'), seed)` with `SNRb = inf`, as a function
+    of the recorded draws: at the transmitted symbols the energy is 0, and no sample has a negative energy -/
+theorem mimo_binary_transmitted_ground_state (nr nt : Nat) (draws : List Nat) (bag : List (PTerm Label))
+    (h : mimoBinary nr nt draws = some bag) (x : Label → Rat)
+    (hx : ∀ i, i < nt → x (iv i) = (bpskSymbols nt (draws.drop (nr * nt))).getD i 0) :
+    evalBag x bag = 0 ∧ ∀ x', evalBag x bag ≤ evalBag x' bag := by
+  have h0 : evalBag x bag = 0 := by
+    rw [(mimo_binary_channel_energy nr nt draws bag h x).1]
+    exact residual_transmitted x nt _ (bpskSymbols_length _ _) hx _
+  exact ⟨h0, fun x' => by rw [h0]; exact (mimo_binary_channel_energy nr nt draws bag h x').2⟩
+
+/-- `coordinated_multipoint(lattice, 'BPSK', F_distribution=('binary', 'real'), seed)` for the attenuation matrix `A` of the
+    lattice: energy `‖F·v − F·x‖²` with `F = (±1 draws) ∘ A`; 0 at the transmitted symbols, never negative -/
+theorem coordinated_multipoint_energy (nr nt : Nat) (A : List (List Rat)) (draws : List Nat) (bag : List (PTerm Label))
+    (h : compBinary nr nt A draws = some bag) (x : Label → Rat) :
+    evalBag x bag = residual x nt (matVec (attenuate (binaryChannel nr nt draws) A) (bpskSymbols nt (draws.drop (nr * nt))))
+                      (attenuate (binaryChannel nr nt draws) A)
+    ∧ 0 ≤ evalBag x bag
+    ∧ ((∀ i, i < nt → x (iv i) = (bpskSymbols nt (draws.drop (nr * nt))).getD i 0) → evalBag x bag = 0) := by
+  have := mimo_bpsk_energy nt _ _ bag h x
+  refine ⟨this, by rw [this]; exact residual_nonneg x nt _ _, fun hx => ?_⟩
+  rw [this]; exact residual_transmitted x nt _ (bpskSymbols_length _ _) hx _
+
+example : (compBinary 2 2 [[1, 1], [0, 1]] [0, 1, 1, 0, 0, 0]).isSome = true := by decide +kernel
+
 end C17
